@@ -850,3 +850,27 @@ def with_helpers(prog, fn, ci=None, depth=2):
                     nxt.append(h)
         frontier = nxt
     return out
+
+
+def check_not_memoised(ctx, fns, rule='T20.nocache'):
+    """A function whose every call must hand out its own fresh list / generator is not wrapped in a memoising decorator
+    (functools.lru_cache / cache and look-alikes): a cache hands the *same* mutable object to every caller with equal
+    arguments, so one caller's in-place edit shows up in the next caller's result."""
+    import ast as _ast
+    for f in fns:
+        bad = None
+        for d in getattr(f.node, 'decorator_list', []):
+            e = d.func if isinstance(d, _ast.Call) else d
+            name = e.attr if isinstance(e, _ast.Attribute) else (e.id if isinstance(e, _ast.Name) else '')
+            if 'cache' in name.lower() or 'memo' in name.lower():
+                bad = d
+        # name = lru_cache(...)(name) at module level
+        for st in f.module.tree.body:
+            if isinstance(st, _ast.Assign) and len(st.targets) == 1 and isinstance(st.targets[0], _ast.Name) and st.targets[0].id == f.name \
+                    and isinstance(st.value, _ast.Call) and any(isinstance(a, _ast.Name) and a.id == f.name for a in st.value.args):
+                t = txt(st.value.func).lower()
+                if 'cache' in t or 'memo' in t:
+                    bad = st
+        ctx.ob(rule, f.fq, 'every call returns its own fresh result (the function is not memoised: a cached list would be shared between '
+               'callers)', bad is None, loc=f.loc if bad is None else '%s:%d' % (f.module.relpath, bad.lineno),
+               detail=txt(bad)[:80] if bad is not None else '')
